@@ -14,6 +14,24 @@ TRUSTED = ['PARTIAL: proved = --lint (unreachable_error) only ever adds the verd
            'NOT expressible in a Coq model: dependence of the emitted text on hash seeds / process state (Python runtime behaviour) - decided by experiment in fresh processes; word-size monotonicity is checked on the VM against the reference semantics\' no-wrap verdict']
 ASSUMPTIONS = ['hash-seed independence is an experiment over PYTHONHASHSEED in {0, 1, 3 random} x fresh processes plus twice in one process']
 
+# programs whose meaning depends on an ORDER the compiler must fix itself (overload declaration
+# order, preferred element type of mixed array literals, label numbering, global materialisation)
+ORDER_SENSITIVE = [
+    '''empty show(const byte[] a) { write("bytes:"); writeln(a); }
+empty show(const int[] a) { write("ints:"); for (int i = 0; i < a.length; i += 1) { write(a[i]); write(' '); } writeln(); }
+empty @is_you() { byte b = 'B'; show([65, b]); writeln([65, b][0]); show([b, 66]); bool t = true; show([1, 2]); }
+''',
+    '''empty f(int x) { write("i"); } empty f(byte x) { write("b"); } empty f(bool x) { write("t"); } empty f(string x) { write("s"); }
+empty g(byte x, int y) { write("bi"); } empty g(int x, byte y) { write("ib"); } empty g(int x, int y) { write("ii"); }
+empty @is_you() { f(1); f('a'); f(true); f("x"); byte b = 1; f(b); f(b + 1); g(1, 2); g(b, 2); g(2, b); g(b, b); }
+''',
+    '''int ga = 1; byte gb = 'x'; bool gc = true; string gd = "s"; int[] ge = [1, 2]; const byte[] gf = ['a']; bool[] gg = [true, false];
+empty @is_you() { write(gd); write(gc); write(gb); write(ga); write(gg[1]); write(gf); write(ge[1]); gg[0] = false; ge[0] = 5; ga = 2; gb = 'y'; write("x"); write("y"); write("x"); }
+''',
+    '''empty @is_you() { string[] ss = ["b", "a", "b", "c", "a"]; for (int i = 0; i < ss.length; i += 1) { write(ss[i]); } write([1, 'a', 2][1]); write(['a', 1][0]); write([true, false][1]); }
+''',
+]
+
 WORKER = r'''
 import sys, json, hashlib
 sys.path.insert(0, %r)
@@ -42,8 +60,14 @@ print(json.dumps(out))
 def run(ctx):
     rng = random.Random(ctx.seed)
     q = ctx.tier == 'quick'
+    # static audit: a new iteration over a hash-ordered collection on the compile path
+    import audit_sets
+    found = set(audit_sets.audit(REPO))
+    new = sorted(found - audit_sets.KNOWN)
+    ctx.oblige('static audit: no iteration over a set/frozenset on the compile path beyond the audited ones', not new,
+               '; '.join('%s: for ... in %s' % x for x in new[:4]))
     # (a) byte-identical output across processes and hash seeds
-    srcs = []
+    srcs = [[d, 2, 100, False] for d in ORDER_SENSITIVE]
     for i in range(40 if q else 300):
         src = gen.gen_program(ctx.seed * 7919 + i, ALL + ['tt'])
         srcs.append([src, rng.choice([2, 3, 4, 8]), rng.choice([64, 300]), rng.random() < 0.3])
